@@ -176,7 +176,7 @@ def run_case(case):
             for k, f in comp_valid.items():
                 v = np.broadcast_to(np.asarray(f(*arr.T), dtype=float), (len(asgs),))
                 valid &= v <= 1 + 1e-6
-                at_capacity |= np.abs(v - 1) <= 1e-5
+                at_capacity |= (v > 1.0) & (v <= 1 + 1e-6)      # float32 rounding above an exact fit
             # declared limits on the number of fused loops (a loop exists iff its tile shape differs from the enclosing one)
             for lim, grp in rec.get("loop_groups", []):
                 grp = [g for g in grp if g in names]
